@@ -1,6 +1,7 @@
 package rules
 
 import (
+	"strconv"
 	"go/constant"
 	"go/token"
 	"go/types"
@@ -345,6 +346,8 @@ func c05(w *core.World, r *core.Report) {
 	ruleReaderLeft(w, r)
 	r.Rule("R08.1", "snapshot commit point (shared with C08): a snapshot becomes offerable only when every announced byte was written", 3)
 	ruleRdbCommit(w, r)
+	r.Rule("R08.2", "after a restart the disk cache offers only what was completely received: the directory scan ignores temporary snapshots and empty segments (shared with C08)", 3)
+	ruleScan(w, r)
 	r.Rule("R05.12", "memory backend: a snapshot stays cached when its writer finishes only if every announced byte arrived (the commit point of the disk backend, R08.1, has a memory sibling)", 1)
 	ruleMemorySnapshotCommit(w, r)
 	r.Rule("R05.11", "one writer per log: the running writer is closed before its successor's file is created", 1)
@@ -1171,6 +1174,89 @@ func ruleVerifyOnOpen(w *core.World, r *core.Report) {
 			}
 		}
 		r.Check(ok, "AofRotateReader.openFile/verifies", f.Pos(), "with verification enabled every segment must be checked when it is opened and a failed check must fail the open")
+		// ... every segment: on no path does a successful open skip the check unless verification is off
+		// (a reader that remembers "already verified" serves the segments it rotates into unchecked)
+		bad := ""
+		var pos token.Pos = f.Pos()
+		n := 0
+		isSwitch := func(v ssa.Value) bool { return core.IsFieldLoad(core.Unwrap(v), "AofRotateReader", "verifyCrc") }
+		okEnum := core.EnumPathsN(f.Blocks[0], 0, 100000, core.Unroll, func(p *core.Path) {
+			ret, isRet := p.End.(*ssa.Return)
+			if !isRet || ret.Parent() != f || bad != "" || !pathNil(p, ret.Results[len(ret.Results)-1]) {
+				return
+			}
+			n++
+			if pathAssumed(p, isSwitch, false) {
+				return
+			}
+			for _, s := range pathSites(p) {
+				if s.Name == "(*pkg/store.AofRotateReader).isCorrupted" {
+					return
+				}
+			}
+			bad, pos = "a segment is opened successfully without having been checked on a path that did not establish that verification is off", ret.Pos()
+		})
+		if !okEnum {
+			r.Undecided("AofRotateReader.openFile/verifies-every-segment", f.Pos(), "too many paths")
+		} else {
+			r.Check(bad == "" && n > 0, "AofRotateReader.openFile/verifies-every-segment", pos, "%s", bad)
+		}
+	}
+	// the switch that reaches the store is the operator's: it derives from the configuration's VerifyCrc and
+	// from nothing that is never assigned
+	nCalls := 0
+	for _, g := range w.Funcs() {
+		if g.Pkg != nil && strings.HasSuffix(g.Pkg.Pkg.Path(), "pkg/store") {
+			continue
+		}
+		for _, s := range core.SitesNamed(g, false, "(*pkg/store.Storer).GetReader") {
+			if s.Instr.Parent() != g {
+				continue
+			}
+			a := s.Args()
+			if len(a) < 2 {
+				continue
+			}
+			nCalls++
+			fromConfig, dead := false, ""
+			core.Walk(a[1], func(v ssa.Value) bool {
+				ld, ok := v.(*ssa.UnOp)
+				if !ok || ld.Op != token.MUL {
+					return true
+				}
+				// every field on the access path must be assigned somewhere in the module
+				for fa, ok := ld.X.(*ssa.FieldAddr); ok; fa, ok = fa.X.(*ssa.FieldAddr) {
+					tn := core.TypeName(fa.X.Type())
+					if strings.Contains(tn, "config.") && strings.EqualFold(core.FieldName(fa), "VerifyCrc") {
+						fromConfig = true
+					}
+					if !strings.Contains(tn, "config.") {
+						if !fieldEverStored(w, fa) {
+							dead = tn + "." + core.FieldName(fa)
+						}
+						// carried in a field of the channel's own configuration: what is assigned to it
+						for _, sv := range fieldStoredValues(w, fa) {
+							if core.DependsOn(sv, func(x ssa.Value) bool {
+								l, isL := x.(*ssa.UnOp)
+								if !isL || l.Op != token.MUL {
+									return false
+								}
+								f2, isF := l.X.(*ssa.FieldAddr)
+								return isF && strings.Contains(core.TypeName(f2.X.Type()), "config.") && strings.EqualFold(core.FieldName(f2), "VerifyCrc")
+							}) {
+								fromConfig = true
+							}
+						}
+					}
+				}
+				return true
+			})
+			name := shortName(core.FuncName(g))
+			r.Check(fromConfig && dead == "", name+"/verification-switch-from-config", s.Pos(), "the verification switch handed to the store must be the configured one (from config: %v; read through a field that nothing ever assigns: %q): otherwise verification is silently off whatever the operator configured", fromConfig, dead)
+		}
+	}
+	if nCalls == 0 {
+		r.Fail("GetReader/verification-switch-from-config", token.NoPos, "no caller of the store's GetReader found")
 	}
 	if f := fn(w, r, "(*pkg/store.AofRotateReader).isCorrupted"); f != nil {
 		bad := ""
@@ -1735,4 +1821,54 @@ func ruleMemorySnapshotCommit(w *core.World, r *core.Report) {
 		return
 	}
 	r.Check(bad == "" && kept > 0 && dropped > 0, "MemoryChannel.finishRdb/keeps-only-complete", pos, "%s (keeping paths=%d, dropping paths=%d)", bad, kept, dropped)
+}
+
+
+var fieldStoredCache = map[string]bool{}
+
+// fieldEverStored: some non-test function of the module assigns the field fa selects (of the same
+// struct type), directly, through a sub-field, or in a composite literal.
+func fieldEverStored(w *core.World, fa *ssa.FieldAddr) bool {
+	key := fa.X.Type().String() + "#" + strconv.Itoa(fa.Field)
+	if v, ok := fieldStoredCache[key]; ok {
+		return v
+	}
+	found := false
+	for _, g := range w.Funcs() {
+		for _, b := range g.Blocks {
+			for _, in := range b.Instrs {
+				st, ok := in.(*ssa.Store)
+				if !ok {
+					continue
+				}
+				for a, ok := st.Addr.(*ssa.FieldAddr); ok; a, ok = a.X.(*ssa.FieldAddr) {
+					if a.Field == fa.Field && types.Identical(a.X.Type(), fa.X.Type()) {
+						found = true
+					}
+				}
+			}
+		}
+	}
+	fieldStoredCache[key] = found
+	return found
+}
+
+
+// fieldStoredValues: the values non-test functions of the module store directly into the field fa selects.
+func fieldStoredValues(w *core.World, fa *ssa.FieldAddr) []ssa.Value {
+	var out []ssa.Value
+	for _, g := range w.Funcs() {
+		for _, b := range g.Blocks {
+			for _, in := range b.Instrs {
+				st, ok := in.(*ssa.Store)
+				if !ok {
+					continue
+				}
+				if a, ok := st.Addr.(*ssa.FieldAddr); ok && a.Field == fa.Field && types.Identical(a.X.Type(), fa.X.Type()) {
+					out = append(out, st.Val)
+				}
+			}
+		}
+	}
+	return out
 }
